@@ -18,9 +18,9 @@ class TranslateError(Exception):
 
 
 TOK = re.compile(r"""
-   (?P<num>\d[\d_]*(?:\.\d*)?(?:[eE][+-]?\d+)?(?:f64|u64|i64|usize)?)
+   (?P<num>\d[\d_]*(?:\.(?!\.)\d*)?(?:[eE][+-]?\d+)?(?:f64|u64|i64|usize)?)
  | (?P<id>[A-Za-z_][A-Za-z0-9_]*(?:::[A-Za-z_][A-Za-z0-9_]*)*)
- | (?P<op>=>|<=|>=|==|!=|&&|\|\||\*=|\+=|-=|/=|[-+*/%<>=!&.,;(){}\[\]|:])
+ | (?P<op>\.\.=|\.\.|=>|<=|>=|==|!=|&&|\|\||\*=|\+=|-=|/=|[-+*/%<>=!&.,;(){}\[\]|:])
  | (?P<ws>\s+)
 """, re.X)
 
@@ -131,7 +131,7 @@ class Parser:
         return b
 
     # ---- expressions (Pratt)
-    PREC = {"||": 1, "&&": 2, "<": 3, ">": 3, "<=": 3, ">=": 3, "==": 3, "!=": 3, "+": 4, "-": 4, "*": 5, "/": 5, "%": 5}
+    PREC = {"..=": 0.5, "..": 0.5, "||": 1, "&&": 2, "<": 3, ">": 3, "<=": 3, ">=": 3, "==": 3, "!=": 3, "+": 4, "-": 4, "*": 5, "/": 5, "%": 5}
 
     def expr(self, minprec=0):
         lhs = self.unary()
@@ -244,12 +244,17 @@ class Parser:
             return ("match", scrut, arms)
         if kind == "id":
             self.next()
+            if self.at("!") and self.peek(1)[1] == "(":
+                self.next()
+                return ("macro", text, self.args())
             if self.at("("):
                 return ("call", text, self.args())
             return ("var", text)
         raise TranslateError("unexpected token %r" % text)
 
     def pattern(self):
+        while self.at("&") or self.at("mut"):
+            self.next()
         kind, text = self.next()
         if text == "Some":
             self.expect("(")
@@ -313,6 +318,9 @@ def key(n):
     if k == "neg":
         r = key(n[1])
         return None if r is None else "-%s" % r
+    if k == "macro":
+        a = [key(x) for x in n[2]]
+        return None if any(x is None for x in a) else "%s!(%s)" % (n[1], ",".join(a))
     if k == "tuple":
         a = [key(x) for x in n[1]]
         return None if any(x is None for x in a) else "(%s)" % ",".join(a)
@@ -419,6 +427,8 @@ def emit(n, cx):
             if f is None:
                 raise TranslateError("unknown function value %s" % key(args[0]))
             return "(%s %s %s)" % ("map" if name == "map" else "flat_map", f, emit(recv, cx))
+        if name == "filter" and len(args) == 1 and args[0][0] == "closure":
+            return "(filter %s %s)" % (emit(args[0], cx), emit(recv, cx))
         if name == "enumerate" and not args:
             return "(enumerate %s)" % emit(recv, cx)
         if name == "skip" and len(args) == 1:
@@ -453,6 +463,11 @@ def emit(n, cx):
         raise TranslateError("unsupported cast `%s as %s`" % (key(inner), n[2]))
     if t == "field":
         raise TranslateError("unknown field access %s" % k)
+    if t == "macro":
+        if n[1] == "iproduct" and len(n[2]) == 2:
+            # iproduct!(a, b): the first iterator is the outer loop
+            return "(flat_map (fun x_ => map (fun y_ => (x_, y_)) %s) %s)" % (emit(n[2][1], cx), emit(n[2][0], cx))
+        raise TranslateError("unknown macro %s!" % n[1])
     if t == "closure":
         return "(fun %s => %s)" % (" ".join(pat_text(p) for p in n[1]), emit(n[2], cx))
     if t == "tuple":
